@@ -45,7 +45,7 @@ CHECKS.update({
    note="Both parties are goroutines of one process; the harness closes a party's connection when it returns so a failed peer cannot block the other for ever."),
  "C03": dict(level="exploration", sec="4/C03",
    technique="runtime monitor: (1) every shipped @Test vector replayed exactly as testsuite_test.go does; (2) generated MPCL programs compiled and their circuits evaluated bit-sliced against a reference interpreter, with automatic statement-level minimisation of witnesses",
-   text="Exploration: all shipped vectors (203; the five sha512 programs are unavailable because their native circuit files are empty) plus 400 (quick) / 6000 (thorough) generated programs over the typed grammar of DESIGN 3.5 (about 99% compile), exhaustive inputs up to 10 bits else 48 boundary/random vectors; evidence lists the SSA opcodes and language features reached. Known finding: MPCL has no block scopes (an inner var of an existing name assigns the outer variable).",
+   text="Exploration: all shipped vectors (203; the five sha512 programs are unavailable because their native circuit files are empty) plus 1500 (quick) / 30000 (thorough) generated programs over the typed grammar of DESIGN 3.5 (about 99% compile), exhaustive inputs up to 10 bits else 48 boundary/random vectors; evidence lists the SSA opcodes and language features reached. Known finding: MPCL has no block scopes (an inner var of an existing name assigns the outer variable).",
    note="The reference interpreter is the specification for the generated part; its grammar is restricted to constructs whose meaning the documentation and annotated programs fix, and (in this check) to operands that are not compile-time constants - folded constants are C12's subject."),
  "C04": dict(level="exploration", sec="4/C04",
    technique="offline checker over the recorded garbler->evaluator transcript: hash set of the 16-byte window at every byte offset, membership test for R and for w xor R; R taken at the ot.OT.Send boundary or by differential garbler runs",
